@@ -6,6 +6,7 @@ CONSTANTS NP = 4
   ProbeHws <- PHws
   InitSets <- Init4h
   MaxEarly = 1
+  LisModes <- LisNone
   D = 0
 INIT Init
 NEXT Next
